@@ -514,3 +514,134 @@ func errorPropagated(site ssa.CallInstruction) bool {
 	})
 	return okP
 }
+
+func init() {
+	p := Properties["C02"]
+	p.Rules = append(p.Rules, Rule{"C02/draft-keywords-gated", ruleC02DraftKeywords})
+}
+
+// keywords that exist in one of the two drafts only and that the evaluator applies under that draft only
+// (read off the pinned tree; the keywords the package applies under both drafts are not listed)
+var draftOnlyFields = map[string]string{
+	"Schema.ItemsArray":        "draft7",
+	"Schema.AdditionalItems":   "draft7",
+	"Schema.DependencyStrings": "draft7",
+	"Schema.DependencySchemas": "draft7",
+	"Schema.PrefixItems":       "draft2020",
+	"Schema.DependentRequired": "draft2020",
+	"Schema.DependentSchemas":  "draft2020",
+}
+
+// In the evaluator, the value of a keyword of one draft is used only where the schema's draft is that draft:
+// every use of the value read from such a field - followed through the local variables it is merged into -
+// happens under a test of Resolved.draft. ("items" is read under both drafts with a different meaning; which
+// fields accompany it is what this rule pins down.)
+func ruleC02DraftKeywords(c *Ctx) {
+	const rule = "C02/draft-keywords-gated"
+	E := c.Evaluator(rule)
+	if E == nil {
+		return
+	}
+	d7, ok1 := c.draftConst("draft7")
+	d20, ok2 := c.draftConst("draft2020")
+	if !ok1 || !ok2 {
+		c.R.Unresolved(rule, "draft constants")
+		return
+	}
+	gated := func(gs []guardAtom, draft string) bool {
+		for _, g := range gs {
+			x, k, equal, ok := eqConst(g)
+			if !ok || !c.mentionsField(x, "Resolved.draft", 4) {
+				continue
+			}
+			kv, ok := constInt(k)
+			if !ok {
+				continue
+			}
+			want, other := d7, d20
+			if draft == "draft2020" {
+				want, other = d20, d7
+			}
+			if (equal && kv == want) || (!equal && kv == other) {
+				return true
+			}
+		}
+		return false
+	}
+	// guards that hold on the edge pred -> succ
+	edgeGuards := func(pred, succ *ssa.BasicBlock) []guardAtom {
+		last := pred.Instrs[len(pred.Instrs)-1]
+		gs := guardsOf(last)
+		if ifi, ok := last.(*ssa.If); ok && len(pred.Succs) == 2 && pred.Succs[0] != pred.Succs[1] {
+			pol := pred.Succs[0] == succ
+			cond := ifi.Cond
+			for {
+				if u, ok := cond.(*ssa.UnOp); ok && u.Op == token.NOT {
+					cond, pol = u.X, !pol
+					continue
+				}
+				break
+			}
+			si := 1
+			if pred.Succs[0] == succ {
+				si = 0
+			}
+			gs = append(gs, guardAtom{cond, pol, ifi, si})
+			gs = append(gs, expandBoolPhi(cond, pol, ifi, si, 3)...)
+		}
+		return gs
+	}
+	n := 0
+	c.eachFam(E, func(i ssa.Instruction) {
+		ld, ok := i.(*ssa.UnOp)
+		if !ok || ld.Op != token.MUL {
+			return
+		}
+		fa, ok := ld.X.(*ssa.FieldAddr)
+		if !ok {
+			return
+		}
+		field := c.fieldName(fa.X.Type(), fa.Field)
+		draft, ok := draftOnlyFields[field]
+		if !ok {
+			return
+		}
+		n++
+		var bad ssa.Instruction
+		seen := map[ssa.Value]bool{}
+		var follow func(v ssa.Value)
+		follow = func(v ssa.Value) {
+			if seen[v] || v.Referrers() == nil {
+				return
+			}
+			seen[v] = true
+			for _, r := range *v.Referrers() {
+				switch u := r.(type) {
+				case *ssa.DebugRef:
+				case *ssa.Phi:
+					for k, e := range u.Edges {
+						if e == v && !gated(edgeGuards(u.Block().Preds[k], u.Block()), draft) {
+							follow(u)
+						}
+					}
+				default:
+					if !gated(guardsOf(r), draft) && bad == nil {
+						bad = r
+					}
+				}
+			}
+		}
+		if gated(guardsOf(ld), draft) {
+			c.R.OK(rule, fmt.Sprintf("%s:read#%d:%s", core.FuncName(ld.Parent()), n, field), c.pos(ld), "read under the "+draft+" test")
+			return
+		}
+		follow(ld)
+		where := ""
+		if bad != nil {
+			where = c.pos(bad)
+		}
+		c.R.Check(bad == nil, rule, fmt.Sprintf("%s:read#%d:%s", core.FuncName(ld.Parent()), n, field), c.pos(ld), "every use of the value happens under the "+draft+" test",
+			fmt.Sprintf("the value of %s, a keyword of %s only, is used at %s on a path where the draft of the schema is not tested to be %s: under the other draft the keyword, which is outside that draft's vocabulary, asserts or shifts what other keywords apply to", field, draft, where, draft))
+	})
+	c.R.Floor(rule, "reads of draft-specific keywords in the evaluator", n, 7)
+}
